@@ -5,7 +5,7 @@
 From Coq Require Import String List ZArith Bool.
 From Coq Require Import Ascii NArith.
 From PV Require Import Model_scsv Proofs_scsv Model_scsv_frame Proofs_scsv_frame Model_scsv_header Proofs_scsv_header.
-From PV Require Import Model_scsv_py Gen_scsv Inst_scsv.
+From PV Require Import Model_scsv_py Gen_scsv Inst_scsv Inst_scsv_save.
 Import ListNotations.
 Open Scope string_scope.
 
@@ -389,3 +389,16 @@ Theorem C16_gen_parse_terse_is_model : forall O t,
   | _, _ => False
   end.
 Proof. exact gen_parse_terse_eq. Qed.
+
+(* save_scsv as a whole: the model `save` (the subject of C16_roundtrip, C16_invalid_*_refused, C16_save_ok_only_if ...)
+   IS the generated blocks (column-length check, _validate_scsv_schema, fills / types / names, the row block for every
+   tuple of zip( *data)) put together by the skeleton `save_assembled` (order of the blocks, the SCSVError of
+   write_scsv_header for an invalid schema, csv.writer's acceptance of the delimiter, the outer `except ValueError`),
+   rows compared as csv.writer stringifies them; columns as lists or tuples *)
+Theorem C16_gen_save_is_model : forall O p s (cs : list (bool * list cell)),
+  abs_schema p = Some s -> fills_not_complex p ->
+  match save_assembled O p (PList (map emb_ccol cs)) with
+  | Ok rows => Ok (map (map (text_of O)) rows)
+  | Err e => Err e
+  end = save O s (map snd cs).
+Proof. exact save_assembled_eq. Qed.
